@@ -406,6 +406,24 @@ def execute_one(plan):
             txn.begin_seq = world.log.add(world.now(), "txn_begin", pid, ti)
             txn.begin_t = world.now()
             failed = None
+            racer_task = None
+            if t.get("racer"):
+                rc = t["racer"]
+
+                async def racer_body(rc=rc):
+                    await asyncio.sleep(rc["start"])
+                    for _ in range(rc["n"]):
+                        cur_txn = mon.current.get(pid)
+                        try:
+                            # a send racing with commit / abort is either refused or belongs to
+                            # the transaction that was open when it was accepted
+                            await do_send(pid, producer, cur_txn, rc["p"], rc["pad"])
+                        except Exception:  # noqa: BLE001
+                            world.probe("racing_send_refused")
+                            await asyncio.sleep(0.001)
+
+                racer_task = asyncio.ensure_future(racer_body())
+                state.setdefault("racers", []).append(racer_task)
 
             async def offsets_step():
                 offs = {TopicPartition("t0", int(p)): o for p, o in t["offsets"].items()}
@@ -440,24 +458,6 @@ def execute_one(plan):
                 failed = await offsets_step()
             if t["think"]:
                 await asyncio.sleep(t["think"])
-            racer_task = None
-            if t.get("racer") and failed is None:
-                rc = t["racer"]
-
-                async def racer_body(rc=rc):
-                    await asyncio.sleep(rc["start"])
-                    for _ in range(rc["n"]):
-                        cur_txn = mon.current.get(pid)
-                        try:
-                            # a send racing with commit / abort is either refused or belongs to
-                            # the transaction that was open when it was accepted
-                            await do_send(pid, producer, cur_txn, rc["p"], rc["pad"])
-                        except Exception:  # noqa: BLE001
-                            world.probe("racing_send_refused")
-                            await asyncio.sleep(0.001)
-
-                racer_task = asyncio.ensure_future(racer_body())
-                state.setdefault("racers", []).append(racer_task)
             want = t["end"]
             if failed is not None:
                 txn.error = failed
